@@ -235,7 +235,7 @@ def guard_prefix_facts(repo, gen_cfgs):
                 raise cxx2coq.TranslationError('guard_prefix_facts: %s overload %d not found' % (name, idx))
             body = [x for x in ds[idx]['inner'] if x['kind'] == 'CompoundStmt'][0]
             cut = int(pf['until_stmt']); writes = 0; calls = set()
-            for st in body['inner'][:cut]:
+            for st in body['inner'][int(pf.get('from_stmt', 0)):cut]:       # (from_stmt: statements in front that the translation leaves out)
                 for n in walk(st):
                     k = n.get('kind')
                     if k == 'CompoundAssignOperator' or (k == 'BinaryOperator' and n.get('opcode') == '=') or \
